@@ -41,6 +41,12 @@ check("C08", "model_checking",
       "sequential histories only in this part; the interleavings of the create path with the audio thread's remove-and-add step are E2's (added when the scheduler exists); listener count is only observable through creation success (no num_listeners()).",
       "DESIGN.md §3 C08")
 
+check("C05", "model_checking",
+      "exhaustive clock-command history and scheduling-grid enumeration against an exact-arithmetic clock model; preemption-bounded DFS over real thread interleavings (reader / game thread vs audio thread) at the granularity of single atomic loads and stores",
+      "E1: all sequences of <= 5 (6 thorough) letters over {start, pause, stop, five speed changes incl. tweens and one scheduled on the clock's own time, callbacks of 1/3/4 frames} x sample rate {4,8} x internal buffer {1,2,4} with exact tick arithmetic (binary-exact dt) and the handle's time/ticking after every step; scheduling grid of static/streaming sound starts, volume-tween starts and resume_at x 12 target times x 3 speeds x all compositions of 12 frames into callbacks of {1,2,3,5} x 3 buffer sizes x clock paused mid-way: the thing must begin exactly in the buffer in which the ticking clock reaches the time, and a waiting sound stops when the clock is removed. E2: every interleaving (preemption bound 2 quick, unbounded thorough) of a thread reading time() three times (or time; stop; time; time) with the audio thread running two callbacks, switching before each atomic operation; every read must be a time the clock had and reads must not go backwards.",
+      "sequentially consistent interleavings only (kira uses SeqCst on these words); resume_at may become audible one internal buffer after it begins (an instant fade-in needs one parameter update); continuous speeds are represented by the listed lattice.",
+      "DESIGN.md §3 C05")
+
 NOT_YET = {}
 
 def main():
